@@ -1,6 +1,7 @@
 import GeoVerif.Model.GeodLineExact
 import GeoVerif.Proofs.GeodLine
 import GeoVerif.Spec.RealInst
+import Mathlib.Analysis.SpecialFunctions.Complex.Arg
 import Mathlib.Tactic.Ring
 import Mathlib.Tactic.Linarith
 import Mathlib.Tactic.FieldSimp
@@ -88,6 +89,89 @@ theorem atan2_pos_mul (r y x : ℝ) (hr : 0 < r) : RealLike.atan2 (r * y) (r * x
   have : (⟨r * x, r * y⟩ : ℂ) = (r : ℂ) * ⟨x, y⟩ := by
     apply Complex.ext <;> simp
   rw [this, Complex.arg_real_mul _ hr]
+
+/-- two directions with the same first component and second components of the same sign differ by less than a quarter turn -/
+theorem atan2_scale_bound (c s k : ℝ) (hc : 0 < c) (hz : s ≠ 0 ∨ k ≠ 0) :
+    |RealLike.atan2 (c * s) k - RealLike.atan2 s k| < Real.pi / 2 := by
+  show |Complex.arg ⟨k, c * s⟩ - Complex.arg ⟨k, s⟩| < Real.pi / 2
+  set z : ℂ := ⟨k, c * s⟩ with hzd
+  set w : ℂ := ⟨k, s⟩ with hwd
+  have hw0 : w ≠ 0 := by
+    intro h; have h1 := congrArg Complex.re h; have h2 := congrArg Complex.im h
+    simp [hwd] at h1 h2; rcases hz with h' | h' <;> contradiction
+  have hz0 : z ≠ 0 := by
+    intro h; have h1 := congrArg Complex.re h; have h2 := congrArg Complex.im h
+    simp [hzd] at h1 h2
+    rcases hz with h' | h'
+    · rcases h2 with h2 | h2
+      · exact hc.ne' h2
+      · exact h' h2
+    · exact h' h1
+  -- the quotient has positive real part
+  have hq : 0 < (z / w).re := by
+    rw [Complex.div_re]
+    have hn : 0 < Complex.normSq w := Complex.normSq_pos.mpr hw0
+    have : z.re * w.re / Complex.normSq w + z.im * w.im / Complex.normSq w = (k ^ 2 + c * s ^ 2) / Complex.normSq w := by
+      simp [hzd, hwd]; ring
+    rw [this]
+    apply div_pos _ hn
+    rcases hz with h' | h'
+    · have := sq_pos_of_ne_zero h'; positivity
+    · have := sq_pos_of_ne_zero h'; positivity
+  have hq2 : |Complex.arg (z / w)| < Real.pi / 2 := Complex.abs_arg_lt_pi_div_two_iff.mpr (Or.inl hq)
+  -- arg z − arg w = arg (z / w) modulo 2π
+  have hang : ((Complex.arg z - Complex.arg w : ℝ) : Real.Angle) = (Complex.arg (z / w) : Real.Angle) := by
+    rw [Complex.arg_div_coe_angle hz0 hw0]; simp
+  obtain ⟨n, hn⟩ := Real.Angle.angle_eq_iff_two_pi_dvd_sub.mp hang
+  -- both arguments lie on the same side
+  have hside : |Complex.arg z - Complex.arg w| ≤ Real.pi := by
+    rcases le_or_gt 0 s with hs | hs
+    · have h1 : 0 ≤ Complex.arg z := Complex.arg_nonneg_iff.mpr (by simp [hzd]; positivity)
+      have h2 : 0 ≤ Complex.arg w := Complex.arg_nonneg_iff.mpr (by simp [hwd]; exact hs)
+      have h3 := Complex.arg_le_pi z; have h4 := Complex.arg_le_pi w
+      rw [abs_le]; constructor <;> linarith
+    · have h1 : Complex.arg z < 0 := Complex.arg_neg_iff.mpr (by simp [hzd]; exact mul_neg_of_pos_of_neg hc hs)
+      have h2 : Complex.arg w < 0 := Complex.arg_neg_iff.mpr (by simp [hwd]; exact hs)
+      have h3 := Complex.neg_pi_lt_arg z; have h4 := Complex.neg_pi_lt_arg w
+      rw [abs_le]; constructor <;> linarith
+  have hn0 : n = 0 := by
+    have hpi := Real.pi_pos
+    have hb : |2 * Real.pi * (n : ℝ)| < 2 * Real.pi := by
+      rw [← hn]
+      calc |Complex.arg z - Complex.arg w - Complex.arg (z / w)| ≤ |Complex.arg z - Complex.arg w| + |Complex.arg (z / w)| := abs_sub _ _
+        _ < 2 * Real.pi := by linarith
+    rw [abs_mul, abs_of_pos (by positivity : (0:ℝ) < 2 * Real.pi)] at hb
+    have : |(n : ℝ)| < 1 := by
+      by_contra h; have h := not_lt.mp h
+      have := mul_le_mul_of_nonneg_left h (by positivity : (0:ℝ) ≤ 2 * Real.pi)
+      linarith
+    have : |n| < 1 := by exact_mod_cast this
+    exact Int.abs_lt_one_iff.mp this
+  rw [hn0] at hn
+  have : Complex.arg z - Complex.arg w = Complex.arg (z / w) := by simpa using sub_eq_zero.mp (by simpa using hn)
+  rw [this]; exact hq2
+
+/-! `copysign(1, x)` over ℝ -/
+
+theorem copysign_one_real (x : ℝ) : (copysign 1 x : ℝ) = if x < 0 then -1 else 1 := by
+  unfold copysign signNeg
+  simp only [ltb_real, eqb_real, lit_real, Nat.cast_zero, Nat.cast_one, abs_real, abs_one]
+  by_cases h : x < 0
+  · simp [h]
+  · by_cases h0 : x = 0
+    · simp [h0]
+    · simp [h, h0]
+
+theorem copysign_mul_self_pos (x : ℝ) (hx : x ≠ 0) : 0 < copysign 1 x * x := by
+  rw [copysign_one_real]
+  split_ifs with h
+  · linarith
+  · have : 0 ≤ x := not_lt.mp h
+    have := lt_of_le_of_ne this (Ne.symm hx); linarith
+
+theorem copysign_abs_one (x : ℝ) : |(copysign 1 x : ℝ)| = 1 := by
+  rw [copysign_one_real]; split_ifs <;> simp
+
 
 /-- `deltaE` at the end point of an arc whose sine and cosine are `(sk, ck)` -/
 noncomputable def E2arc (L : LineX ℝ) (K : Ell ℝ) (sk ck : ℝ) : ℝ :=
